@@ -111,12 +111,41 @@ def _stop_at_first_loop(it, s, env):
     raise cx._Stop(dict(env))
 
 
+STRETCH_PARAMS = ('edges', 'widths', 'stretching', 'nx', 'domain', 'use_up')
+
+
+def bind_stretch(e):
+    """arguments of a recorded _stretch call by parameter name (positional or keyword)"""
+    b = dict(zip(STRETCH_PARAMS, e['args']))
+    b.update(e['kwargs'])
+    return b
+
+
 def run_prefix(dom, vec, sea, lfc, coe):
-    """dom in {'domain','distance','vector-only'}; vec: bool (3-node vector given); sea: bool; lfc: bool; coe in {True, False, 'notset'}"""
-    V = [z3.Real(f'vec{i}') for i in range(3)]
+    """origin_and_widths up to its second _stretch call (the one over the computational domain); what the function has worked out by then is
+    read off the ARGUMENTS of the two calls, not off local variable names.
+    dom in {'domain','distance'}; vec: bool (a node vector is given); sea: bool; lfc: bool; coe in {True, False, 'notset'}"""
+    from .cxutil import generic_for_loops
+
+    def stretch(it, args, kw, node):
+        ctx = it.ctx
+        calls = [e for e in ctx.events if e['kind'] == 'call' and e['name'] == 'meshes._stretch']      # this call included
+        b = bind_stretch(calls[-1])
+        if b.get('use_up') is True or len(calls) >= 2:
+            raise cx._Stop(dict(calls=[bind_stretch(c) for c in calls]))
+        w = cx.Opaque('stage1-widths')
+        return ([z3.Real('stage1_edge0'), z3.Real('stage1_edge1')], w, z3.Int('stage1_remain'))
+
+    def seq_fn(name):
+        def h(it, f, args, kw, node):
+            o = cx.Opaque(name)
+            o.seq_args = list(args)
+            return o
+        return h
 
     def mk(ctx):
         ctx.opts.setdefault('prelude', {}).update(VEC_PRELUDE)
+        ctx.opts['prelude'].update({'np.unique': seq_fn('np.unique'), 'np.linspace': seq_fn('np.linspace')})
         pm = cx.Obj('MapConductivity', {}, mod='maps')
         kw = dict(stretching=[S0, S1], lambda_factor=LF, max_buffer=MB, lambda_from_center=lfc, mapping=pm,
                   cell_numbers=cx.Opaque('cell_numbers'))
@@ -135,16 +164,30 @@ def run_prefix(dom, vec, sea, lfc, coe):
         return [FREQ, [z3.Real('p0'), z3.Real('p1'), z3.Real('p2')], CEN], kw, st
     summs = base_summaries()
     summs['meshes._seasurface'] = lambda it, args, kw, node: (cx.Opaque('seasurface-edges'), cx.Opaque('seasurface-widths'))
+    summs['meshes._stretch'] = stretch
     return cx.run_function('meshes.origin_and_widths', mk, pc0=[DMIN > 0, MB > 0], summaries=summs,
-                           opts=dict(loop_hook=_stop_at_first_loop))
+                           opts=dict(loop_hook=generic_for_loops({'finished': False})))
 
 
 def task_prefix():
+    from .cxutil import UNRECOGNISED
     col = ob.Collector(PROP, 'meshes.origin_and_widths/domain-centre-buffer')
     col.default_replay = replay
     col.function('meshes.origin_and_widths')
     pre = [DMIN > 0, MB > 0]
     absr = lambda x: z3.If(x >= 0, x, -x)
+
+    def reached(r):
+        return r.outcome == 'stop' and isinstance(r.value, dict) and 'calls' in r.value
+
+    def two_calls(r):
+        c = r.value['calls']
+        if len(c) != 2 or any(k not in c[0] for k in ('edges', 'widths', 'domain')) or 'domain' not in c[1]:
+            return None
+        return c
+
+    def vec2(v):
+        return isinstance(v, (cx.Vec, list)) and len(v) == 2 and all(cx.is_sym(cx.R(x)) or isinstance(x, (int, float)) for x in v)
 
     # ---- survey domain and buffer, no vector ---------------------------------------------------------------
     for dom in ('domain', 'distance'):
@@ -158,23 +201,24 @@ def task_prefix():
                     d1 = mx(d1, SEA)
                 w0, w1 = LF * WLEN(SD[1]), LF * WLEN(SD[2])
 
-                def stops(r):
-                    return r.outcome == 'stop'
-
                 def dom_ok(r):
-                    d = r.value.get('domain')
-                    return isinstance(d, cx.Vec) and len(d) == 2 and z3.And(cx.R(d[0]) == d0, cx.R(d[1]) == d1)
-                clause(col, f'survey_domain/{tag}', res, dom_ok, pre, select=stops)
+                    c = two_calls(r)
+                    if c is None or not vec2(c[0]['domain']):
+                        return UNRECOGNISED('the search does not start with two _stretch calls over 2-vectors')
+                    d = c[0]['domain']
+                    return z3.And(cx.R(d[0]) == d0, cx.R(d[1]) == d1)
+                clause(col, f'survey_domain/{tag}', res, dom_ok, pre, select=reached)
                 if sea:
                     clause(col, f'seasurface_not_above_centre_raises_ValueError/{tag}', res,
                            lambda r: z3.BoolVal(r.outcome == 'raise' and r.value.typ == 'ValueError') == (SEA <= CEN), pre)
                 else:
-                    clause(col, f'no_error_before_the_search/{tag}', res, lambda r: r.outcome == 'stop', pre)
+                    clause(col, f'no_error_before_the_search/{tag}', res, lambda r: r.outcome != 'raise' or r.value.typ == 'RuntimeError', pre)
 
                 def comp_ok(r):
-                    c = r.value.get('comp_domain')
-                    if not (isinstance(c, cx.Vec) and len(c) == 2):
-                        return False
+                    c = two_calls(r)
+                    if c is None or not vec2(c[1]['domain']):
+                        return UNRECOGNISED('the search does not start with two _stretch calls over 2-vectors')
+                    c = c[1]['domain']
                     if not lfc:
                         # distance from the edge of the survey domain: lambda_factor wavelengths, at most max_buffer
                         return z3.And(cx.R(c[0]) == d0 - mn(w0, MB), cx.R(c[1]) == d1 + mn(w1, MB))
@@ -183,32 +227,42 @@ def task_prefix():
                     e0 = d0 - mx(z3.RealVal(0), (2 * w0 - absr(d0 - CEN)) / 2)
                     e1 = d1 + mx(z3.RealVal(0), (2 * w1 - absr(d1 - CEN)) / 2)
                     return z3.And(cx.R(c[0]) == mx(e0, CEN - MB), cx.R(c[1]) == mn(e1, CEN + MB))
-                clause(col, f'computational_domain_is_domain_plus_capped_scaled_wavelength/{tag}', res, comp_ok, pre, select=stops)
+                clause(col, f'computational_domain_is_domain_plus_capped_scaled_wavelength/{tag}', res, comp_ok, pre, select=reached)
                 if not lfc and not sea and dom == 'domain':
                     def wrong(r):
-                        c = r.value.get('comp_domain')
+                        c = two_calls(r)
+                        if c is None or not vec2(c[1]['domain']):
+                            return True
+                        c = c[1]['domain']
                         return z3.And(cx.R(c[0]) == D0 - LF * mn(WLEN(SD[1]), MB), cx.R(c[1]) == D1 + LF * mn(WLEN(SD[2]), MB))
-                    canary(col, f'canary/factor_applied_after_the_cap/{tag}', res, wrong, pre, select=stops)
+                    canary(col, f'canary/factor_applied_after_the_cap/{tag}', res, wrong, pre, select=reached)
 
     # ---- centre part ---------------------------------------------------------------------------------------
     for coe in (True, False, 'notset'):
         res = run_prefix('domain', False, False, False, coe)
 
         def centre(r):
-            e, w = r.value.get('center_edges'), r.value.get('center_widths')
+            c = two_calls(r)
+            if c is None:
+                return UNRECOGNISED('the search does not start with two _stretch calls')
+            e, w = c[0]['edges'], c[0]['widths']
+            if not vec2(e):
+                return UNRECOGNISED('centre edges are not a 2-vector')
             if coe in (True, 'notset'):
                 # centre is a node: two cells of width dmin around it
-                return isinstance(e, cx.Vec) and isinstance(w, cx.Vec) and len(w) == 2 and z3.And(
-                    cx.R(e[0]) == CEN - DMIN, cx.R(e[1]) == CEN + DMIN, cx.R(w[0]) == DMIN, cx.R(w[1]) == DMIN)
+                if not (isinstance(w, (cx.Vec, list)) and len(w) == 2):
+                    return False
+                return z3.And(cx.R(e[0]) == CEN - DMIN, cx.R(e[1]) == CEN + DMIN, cx.R(w[0]) == DMIN, cx.R(w[1]) == DMIN)
             # centre is a cell centre: one cell of width dmin around it
-            return isinstance(e, cx.Vec) and z3.And(cx.R(e[0]) == CEN - DMIN / 2, cx.R(e[1]) == CEN + DMIN / 2, cx.R(w) == DMIN) \
-                if cx.is_sym(w) else False
+            if isinstance(w, (cx.Vec, list)) and len(w) == 1:
+                w = w[0]
+            if not cx.is_sym(w):
+                return False
+            return z3.And(cx.R(e[0]) == CEN - DMIN / 2, cx.R(e[1]) == CEN + DMIN / 2, cx.R(w) == DMIN)
         clause(col, f'centre_part_puts_centre_on_{"node" if coe in (True, "notset") else "cell_centre"}/center_on_edge={coe}', res,
-               centre, pre, select=lambda r: r.outcome == 'stop')
+               centre, pre, select=reached)
         clause(col, f'future_warning_iff_center_on_edge_not_set/center_on_edge={coe}', res,
-               lambda r: any(e['kind'] == 'libcall' and e.get('name') == 'warnings.warn' and e['args'][1:] == [cx.LibFn('FutureWarning')] or
-                             (e['kind'] == 'libcall' and e.get('name') == 'warnings.warn') for e in r.events) == (coe == 'notset'), pre)
-
+               lambda r: any(e['kind'] == 'libcall' and e.get('name') == 'warnings.warn' for e in r.events) == (coe == 'notset'), pre)
     return col.pack()
 
 
@@ -268,6 +322,7 @@ def task_search():
                 return any(e['kind'] == 'loop_break' for e in r.events)
 
             def wiring(r):
+                from .cxutil import UNRECOGNISED
                 if r.outcome != 'return':
                     return False
                 v = r.value
@@ -276,30 +331,32 @@ def task_search():
                 calls = [e for e in r.events if e['kind'] == 'call' and e['name'] == 'meshes._stretch']
                 its = {e['line']: e for e in r.events if e['kind'] == 'generic_iteration'}
                 if len(calls) != 2 or len(its) != 3:
-                    return False
+                    return UNRECOGNISED('a found grid is not reached through three nested loops and two _stretch calls')
                 (l_nx, i_nx), (l_sa, i_sa), (l_ca, i_ca) = sorted(its.items())
-                c1, c2 = calls
+                b1, b2 = bind_stretch(calls[0]), bind_stretch(calls[1])
+                if any(k not in b1 for k in STRETCH_PARAMS[:5]) or any(k not in b2 for k in STRETCH_PARAMS[:5]):
+                    return UNRECOGNISED('_stretch is not called with (edges, widths, stretching, nx, domain)')
                 # second call: use_up on the computational domain, same nx, started from the first call's result
-                a2, k2 = c2['args'], c2['kwargs']
-                a1, k1 = c1['args'], c1['kwargs']
-                ok = k2.get('use_up') is True and not k1 and len(a1) == 5 and len(a2) == 5
-                ok = ok and a2[3] is i_nx['elem'] and a1[3] is i_nx['elem'] and a1[2] is i_sa['elem'] and a2[2] is i_ca['elem']
+                ok = b2.get('use_up') is True and not b1.get('use_up', False)
+                ok = ok and b2['nx'] is i_nx['elem'] and b1['nx'] is i_nx['elem'] and b1['stretching'] is i_sa['elem'] and b2['stretching'] is i_ca['elem']
                 # the returned origin / widths are those of the second call
                 ok = ok and z3.is_expr(v[0]) and v[0].eq(z3.Real('stretch2_edge0')) and getattr(v[1], 'stretch_call', None) == 2
-                ok = ok and isinstance(a2[0], list) and a2[0][0].eq(z3.Real('stretch1_edge0')) and a2[0][1].eq(z3.Real('stretch1_edge1'))
-                ok = ok and getattr(a2[1], 'stretch_call', None) == 1
+                ok = ok and isinstance(b2['edges'], list) and b2['edges'][0].eq(z3.Real('stretch1_edge0')) and b2['edges'][1].eq(z3.Real('stretch1_edge1'))
+                ok = ok and getattr(b2['widths'], 'stretch_call', None) == 1
                 # sequences: nx from unique(cell_numbers); sa from linspace(1, stretching[0], .); ca from linspace(sa, stretching[1], .)
                 sq = lambda e: getattr(e['seq'], 'seq_args', None)
+                if any(sq(e) is None for e in (i_nx, i_sa, i_ca)):
+                    return UNRECOGNISED('the loops do not run over np.unique / np.linspace sequences')
                 ok = ok and i_nx['seq'].tag == 'np.unique' and sq(i_nx)[0] is r.state['cell_numbers']
                 ok = ok and i_sa['seq'].tag == 'np.linspace' and sq(i_sa)[0] == 1.0 and sq(i_sa)[1] is S0
                 ok = ok and i_ca['seq'].tag == 'np.linspace' and sq(i_ca)[0] is i_sa['elem'] and sq(i_ca)[1] is S1
                 if not ok:
                     return False
                 # domains handed over: survey domain first, computational domain second
-                d, c = a1[4], a2[4]
+                d, c = b1['domain'], b2['domain']
                 w0, w1 = LF * WLEN(SD[1]), LF * WLEN(SD[2])
                 return z3.And(cx.R(d[0]) == D0, cx.R(d[1]) == D1, cx.R(c[0]) == D0 - mn(w0, MB), cx.R(c[1]) == D1 + mn(w1, MB),
-                              cx.R(a1[0][0]) == CEN - DMIN / 2, cx.R(a1[0][1]) == CEN + DMIN / 2, cx.R(a1[1]) == DMIN)
+                              cx.R(b1['edges'][0]) == CEN - DMIN / 2, cx.R(b1['edges'][1]) == CEN + DMIN / 2, cx.R(b1['widths']) == DMIN)
             clause(col, f'returned_grid_is_a_successful_use_up_stretch_over_comp_domain_of_a_successful_stretch_over_domain/{tag}',
                    res, wiring, pre, select=found)
 
@@ -462,6 +519,7 @@ def _clip(it, f, args, kw, node):
 
 def task_formulas():
     import math
+    from .cxutil import UNRECOGNISED
     from pyvc import prelude
     col = ob.Collector(PROP, 'meshes/closed-forms')
     col.default_replay = replay
@@ -521,11 +579,12 @@ def task_formulas():
         def ca(r):
             if r.outcome != 'stop':
                 return False
-            c = r.value.get('cond_arr')
             want = expand_props(P)
             skin = [e for e in r.events if e['kind'] == 'call' and e['name'] == 'meshes.skin_depth']
-            return isinstance(c, cx.Vec) and [str(x) for x in c] == [str(x) for x in want] and len(skin) == 1 and \
-                skin[0]['args'][0] is FREQ and skin[0]['args'][1] is c
+            if len(skin) != 1 or len(skin[0]['args']) < 2:
+                return UNRECOGNISED('skin depth is not obtained by one call skin_depth(frequency, conductivities)')
+            c = skin[0]['args'][1]
+            return isinstance(c, (cx.Vec, list)) and [str(x) for x in c] == [str(x) for x in want] and skin[0]['args'][0] is FREQ
         clause(col, f'properties_expand_to_minwidth_negative_positive/{L}', res, ca, [DMIN > 0])
     return col.pack()
 
@@ -614,14 +673,16 @@ def task_seasurface():
                 notclose = any(str(c).startswith('Not(truth_np.isclose') for c in r.pc)
                 close = any(str(c).startswith('truth_np.isclose') for c in r.pc)
                 if not (close or notclose):
-                    return False
+                    from .cxutil import UNRECOGNISED
+                    return UNRECOGNISED('the final test is not a truth test of np.isclose(...)')
                 return (len(warned) == 1 and getattr(warned[0]['args'][1], 'name', None) == 'UserWarning') if notclose else not warned
             clause(col, f'user_warning_exactly_when_seasurface_is_not_close_to_a_node/{tag}', res, warn_iff, select=rets)
 
             def tested_nodes(r):
                 calls = [o for o in _all_opaques(r) if o.tag == 'np.isclose']
                 if len(calls) != 1:
-                    return False
+                    from .cxutil import UNRECOGNISED
+                    return UNRECOGNISED('the final test is not one call of np.isclose')
                 a = calls[0].fn_args
                 if not (a[0] == 0.0 and isinstance(a[1], cx.Opaque) and a[1].tag == 'min'):
                     return False
@@ -680,8 +741,20 @@ def task_concrete(part=0, of=1):
     return col.pack()
 
 
+def task_estimate():
+    import os
+    from . import c16_concrete
+    col = ob.Collector(PROP, 'concrete')
+    col.function('meshes.estimate_gridding_opts')
+    r = ob.guarded(c16_concrete.estimate_opts, os.environ.get('VERIF_TIER', 'quick'), int(os.environ.get('VERIF_SEED', '0')))
+    col.concrete('estimate_gridding_opts_hands_on_given_options_and_its_domain_and_mesh_cover_the_survey', r['reproduced'] is False, r,
+                 bounded='random models (4 mappings, isotropic / VTI) x surveys (1-3 sources, 1-4 receivers, 1-3 frequencies): 6 (quick) / 30 (thorough)',
+                 cases=r.get('cases', 0))
+    return col.pack()
+
+
 def tasks(tier):
-    t = [('contracts.c16', n, {}) for n in ('task_prefix', 'task_search', 'task_construct', 'task_formulas', 'task_seasurface', 'task_composition')]
+    t = [('contracts.c16', n, {}) for n in ('task_prefix', 'task_search', 'task_construct', 'task_formulas', 'task_seasurface', 'task_composition', 'task_estimate')]
     of = 4 if tier == 'quick' else 12
     t += [('contracts.c16', 'task_concrete', dict(part=k, of=of)) for k in range(of)]
     t += [('contracts.c16_stretch', n, {}) for n in ('task_lemmas', 'task_stretch')]
@@ -699,5 +772,5 @@ ASSUMPTIONS = ['numpy on small vectors / sequences: np.min/np.max(axis=0), np.di
                'vector cut (np.where on the user vector) and the retention of vector nodes: bounded concrete check only',
                '_seasurface: the search for the extra cells (brentq) is outside the proof; its result is covered by the node-or-warning clause and the bounded check; '
                'growth bound inside the sea-surface part: bounded concrete check only',
-               'estimate_gridding_opts (defaults from model and survey) is not under contract',
+               'estimate_gridding_opts (defaults from model and survey): bounded concrete check only (options handed on, domain and mesh cover the survey)',
                'MapConductivity.backward is the identity (other mappings: bounded concrete check)']
